@@ -104,6 +104,9 @@ STRESS = {  # large-magnitude operands at which the function is perfectly well c
 }
 
 
+ZERO_FNS = ("prod", "cumprod", "multiply_sequence", "multiply")
+
+
 def gen_single(rng, fn, force_empty=False, k=0):
     if fn == "setitem":
         return gen_setitem(rng)
@@ -141,6 +144,22 @@ def gen_single(rng, fn, force_empty=False, k=0):
             n = b.leaf(shp, lo=lo, hi=hi, signed=signed, constant=None if i == 0 else rng.choice([None, None, True]))
             if rng.random() < 0.3:
                 b.prog[-1]["nocopy"] = True
+        if fn in ZERO_FNS and k % 3 == 1:
+            # exact zeros among the factors (0, 1 or several per lane): the product is a polynomial, differentiable there, and the
+            # backward pass has dedicated branches for it; signs mixed as well
+            for st in b.prog:
+                if st["k"] == "leaf" and st["data"]:
+                    arr = b.it.env[st["out"]]
+                    flat = list(st["data"])
+                    for j in range(len(flat)):
+                        if rng.random() < 0.5:
+                            flat[j] = -flat[j]
+                    for j in rng.sample(range(len(flat)), min(len(flat), rng.randint(1, 3))):
+                        flat[j] = 0.0
+                    st["data"] = flat
+                    st["layout"] = "C"
+                    st.pop("nocopy", None)
+                    b.it.env[st["out"]] = np.array(flat, dtype=arr.dtype).reshape(arr.shape)
         if rng.random() < 0.25 and spec.kind == "u2":
             b.leaf(B.bcast_variants(rng, shape), kind="array")
         # where= mask with out= for ufuncs
